@@ -41,6 +41,34 @@ CHECKS = {
         note="numpy.longdouble reference; magnitudes <= 1e6",
         design="§4 C20",
     ),
+    "C14": dict(
+        engine="E2-primitive-explorer",
+        technique="exhaustive enumeration of spaces (all non-empty feasibility masks over 4 shapes x unrestricted discrete states x 0-3 linear/log axes) x full product of a per-axis evaluation lattice on the real get_function_representation; reference lookup + multilinear interpolation",
+        text="For every restricted-state shape in {(2),(3),(2,2),(2,3)} EVERY non-empty feasibility mask (88) combined with 0-2 unrestricted discrete states and 0-1 continuous axes, and for 5 restricted configurations ALL 15 combinations of 0-3 linear/log axes, the real function representation is evaluated (vmapped eagerly, jitted, scalar; with and without input prefix) on every feasible label combination x the full product of {nodes, mid-points, quarter points, 2 points below/above a linear grid} for two arrays, and compared with an independent lookup+interpolation reference: node reproduction, piecewise linearity and linear continuation follow point-wise.",
+        note="SpaceInfo objects are constructed directly from lcm's dataclasses; infeasible restricted combinations are never evaluated; log grids only inside their range",
+        design="§4 C14",
+    ),
+    "C15": dict(
+        engine="E2-primitive-explorer",
+        technique="exhaustive enumeration of array shapes (ranks 1-4) x full product of a coordinate lattice, and of a (type,start,length,n) grid alphabet x value lattice, on the real map_coordinates / get_coordinate; multilinear reference",
+        text="map_coordinates is evaluated for all 39 shapes over sizes {2,3,4} (ranks 1-3) and all 16 shapes over {2,3} (rank 4) on the full product of the per-axis lattice {-1.5,-1,-0.5,0,0.25,...,n-1,n-0.5,n+0.5} (batched list, batched 2-d array, scalar calls, integer arrays) against a 2^rank-neighbour blend with linear continuation; for 36 grids x 6 sizes the coordinate of every node must be its index, coordinates must increase strictly along a value lattice (nodes, quarter points, outside points for linear grids) and interpolating the grid at the coordinate of a value must return the value.",
+        note="tolerance 1e-9 relative; log grids inside their range only",
+        design="§4 C15",
+    ),
+    "C16": dict(
+        engine="E2-primitive-explorer",
+        technique="exhaustive enumeration of all (start, stop, n_points) triples over a 20x20x10 alphabet of numeric and non-numeric values for both grid classes, and of all dataclasses with 1-3 fields over an 11-value alphabet, on the real constructors",
+        text="All 8000 constructions of LinspaceGrid/LogspaceGrid over the alphabet (negative, zero, fractional, large, non-finite, bool, numpy scalar, string, None, complex) and all 1463 category dataclasses (plus non-dataclasses) are executed: each must raise GridInitializationError or materialise to exactly n finite, strictly increasing, equally spaced values with the specified end points; discrete grids must be accepted iff the field values are numerically 0,1,2,... in declaration order and then materialise to these codes. No other exception type is tolerated.",
+        note="tolerances follow the precision of the returned array (bool bounds make jnp compute in float32); sub-normal bounds outside the alphabet",
+        design="§4 C16",
+    ),
+    "C17": dict(
+        engine="E2-primitive-explorer",
+        technique="exhaustive enumeration of all filter truth tables over the cells of 9 restricted-variable shapes (complete up to 8 cells, capped above), realised as period-indexed lookup filters of real processed models and passed through the real create_state_choice_space; deviation-bounded configuration space",
+        text="Every truth table over <= 8 cells (and a stated capped set for 12 and 16 cells; all 4096 in the thorough tier) is one period of a real model whose filter is a lookup table indexed by _period; the stored combinations, the state indexer, the choice segments and the dense grids returned by create_state_choice_space are compared with a reference enumeration in row-major canonical order. Configurations: one filter / conjunction of two / filter through an auxiliary function (known finding K4), with/without unrestricted discrete and continuous variables declared between the restricted ones, is_last_period, jit_filter - all 24 combinations for small shapes, base + single deviations for larger ones.",
+        note="caps are reported in the evidence (exhaustive=false); K4 is matched by configuration split=aux + ValueError missing params only",
+        design="§4 C17",
+    ),
 }
 
 NOT_APPLICABLE = {
